@@ -104,6 +104,7 @@ type Goroutine struct {
 	blocked  *blockInfo
 	finished bool
 	name     string
+	vc       VC
 }
 
 func (r *Run) get(fr *Frame, v ssa.Value) Value {
@@ -588,6 +589,7 @@ func (r *Run) exec(g *Goroutine, fr *Frame, in ssa.Instruction) {
 	case *ssa.Go:
 		fv, args := r.prepareCall(fr, &x.Call)
 		ng := r.newGoroutine(fmt.Sprintf("go@%s", fr.fn.Name()))
+		r.raceFork(g, ng)
 		r.invoke(ng, fv, args, nil)
 		if len(ng.stack) == 0 {
 			ng.finished = true
@@ -612,6 +614,11 @@ func (r *Run) exec(g *Goroutine, fr *Frame, in ssa.Instruction) {
 	case *ssa.IndexAddr:
 		r.execIndexAddr(fr, x)
 	case *ssa.Lookup:
+		if r.race.on {
+			if m, ok := r.get(fr, x.X).(*MapV); ok && m != nil {
+				r.raceAccess(g, slotKey{isMap: m, p0: -1, p1: -1}, false, x)
+			}
+		}
 		r.execLookup(fr, x)
 	case *ssa.MakeChan:
 		n := r.concreteInt(r.get(fr, x.Size), "chan size")
@@ -641,10 +648,18 @@ func (r *Run) exec(g *Goroutine, fr *Frame, in ssa.Instruction) {
 		if m == nil {
 			panic(goPanic{kind: "nil-map", msg: "assignment to entry in nil map"})
 		}
+		if r.race.on {
+			r.raceAccess(g, slotKey{isMap: m, p0: -1, p1: -1}, true, x)
+		}
 		r.mapStore(m, r.get(fr, x.Key), r.get(fr, x.Value))
 	case *ssa.Next:
 		r.execNext(fr, x)
 	case *ssa.Range:
+		if r.race.on {
+			if m, ok := r.get(fr, x.X).(*MapV); ok && m != nil {
+				r.raceAccess(g, slotKey{isMap: m, p0: -1, p1: -1}, false, x)
+			}
+		}
 		r.execRange(fr, x)
 	case *ssa.Panic:
 		v := r.get(fr, x.X)
@@ -673,6 +688,11 @@ func (r *Run) exec(g *Goroutine, fr *Frame, in ssa.Instruction) {
 	case *ssa.Slice:
 		r.execSlice(fr, x)
 	case *ssa.Store:
+		if r.race.on {
+			if p := r.get(fr, x.Addr).(PtrV); p.obj != nil {
+				r.raceAccess(g, keyOf(p), true, x)
+			}
+		}
 		r.store(r.get(fr, x.Addr).(PtrV), r.get(fr, x.Val))
 	case *ssa.TypeAssert:
 		r.execTypeAssert(fr, x)
@@ -745,6 +765,11 @@ func (r *Run) execUnOp(g *Goroutine, fr *Frame, x *ssa.UnOp) {
 	v := r.get(fr, x.X)
 	switch x.Op {
 	case token.MUL:
+		if r.race.on {
+			if p := v.(PtrV); p.obj != nil {
+				r.raceAccess(g, keyOf(p), false, x)
+			}
+		}
 		r.set(fr, x, r.load(v.(PtrV)))
 	case token.NOT:
 		r.set(fr, x, r.ctx.Not(v.(*Term)))
